@@ -286,12 +286,24 @@ def inline_shared_temps(f, ref_names):
                     if not (isinstance(st, ast.Assign) and len(st.targets) == 1 and isinstance(st.targets[0], ast.Name)):
                         continue
                     nm = st.targets[0].id
-                    if nm in ref_names or nm in params or len(stores.get(nm, [])) != 1 or len(loads.get(nm, [])) < 2 or not _pure(st.value):
+                    if nm in ref_names or nm in params or not _pure(st.value):
                         continue
-                    after = {id(y) for later in blk[i + 1:] for y in ast.walk(later)}
-                    uses = loads[nm]
-                    if not all(id(u) in after for u in uses):
+                    # every binding of the name is a plain `name = <pure expression>` statement of this very block; the
+                    # reads between one binding and the next belong to that binding
+                    def_idx = [j for j, x in enumerate(blk) if isinstance(x, ast.Assign) and len(x.targets) == 1 and isinstance(x.targets[0], ast.Name)
+                               and x.targets[0].id == nm]
+                    if len(def_idx) != len(stores.get(nm, [])) or not all(_pure(blk[j].value) for j in def_idx):
                         continue
+                    nxt = min([j for j in def_idx if j > i], default=len(blk))
+                    span = blk[i + 1:nxt]
+                    after_first = {id(y) for later in blk[def_idx[0] + 1:] for y in ast.walk(later)}
+                    if not all(id(u) in after_first for u in loads.get(nm, [])):
+                        continue
+                    in_span = {id(y) for later in span for y in ast.walk(later)}
+                    uses = [u for u in loads.get(nm, []) if id(u) in in_span]
+                    if len(uses) < (2 if len(def_idx) == 1 else 1):
+                        continue
+                    after = in_span
                     # (no nested function reads it: its value there is the one at call time)
                     if any(isinstance(d, (ast.FunctionDef, ast.AsyncFunctionDef, ast.Lambda)) and d is not f and any(u is y for u in uses for y in ast.walk(d))
                            for d in ast.walk(f)):
@@ -314,7 +326,7 @@ def inline_shared_temps(f, ref_names):
                                 unstable = True
                     if unstable:
                         continue
-                    for later in blk[i + 1:]:
+                    for later in span:
                         class _S(ast.NodeTransformer):
                             def visit_Name(self, node):
                                 if node.id == nm and isinstance(node.ctx, ast.Load):
@@ -331,6 +343,112 @@ def inline_shared_temps(f, ref_names):
                 break
     if done:
         ast.fix_missing_locations(f)
+    return done
+
+
+def ref_temps(f):
+    """[(name, value text, number of reads)] for the locals of f that are bound exactly once, by a plain
+    `name = <expression>` (not a bare name or constant), and never otherwise stored"""
+    stores, loads, defs = {}, {}, {}
+    for n in ast.walk(f):
+        if isinstance(n, ast.Name):
+            d = stores if isinstance(n.ctx, (ast.Store, ast.Del)) else loads
+            d[n.id] = d.get(n.id, 0) + 1
+        elif isinstance(n, ast.Assign) and len(n.targets) == 1 and isinstance(n.targets[0], ast.Name):
+            defs.setdefault(n.targets[0].id, []).append(n.value)
+    params = {a.arg for n in ast.walk(f) if isinstance(n, ast.arguments) for a in n.posonlyargs + n.args + n.kwonlyargs}
+    out = []
+    for st in _ordered(f):
+        if isinstance(st, ast.Assign) and len(st.targets) == 1 and isinstance(st.targets[0], ast.Name):
+            nm = st.targets[0].id
+            if stores.get(nm) == 1 and len(defs.get(nm, [])) == 1 and nm not in params and loads.get(nm, 0) >= 1 \
+                    and not isinstance(st.value, (ast.Name, ast.Constant)):
+                out.append([nm, ast.unparse(st.value), loads[nm]])
+    return out
+
+
+def reintroduce_ref_temps(f, temps):
+    """Undo "inline temporary": a single-assignment local of the reference (`t = E`, read n times) that the function
+    no longer has, while the expression E occurs exactly n times in it (outside lambdas / comprehensions), is bound
+    again in front of the first statement that uses E and the occurrences read the name.  For n > 1 the expression must
+    be pure and nothing it reads may be stored to between the first and the last occurrence."""
+    if not temps or os.environ.get('VERIF_NO_INLINE'):
+        return 0
+    done = 0
+    pos = lambda n: (n.lineno, n.col_offset)
+    for _ in range(len(temps) + 1):
+        changed = False
+        names_now = {n.id for n in ast.walk(f) if isinstance(n, ast.Name)} | \
+            {a.arg for n in ast.walk(f) if isinstance(n, ast.arguments) for a in n.posonlyargs + n.args + n.kwonlyargs}
+        for nm, vtext, nreads in temps:
+            if nm in names_now:
+                continue
+            hidden = set()
+            for x in ast.walk(f):
+                if isinstance(x, (ast.Lambda,) + _COMPS) or (isinstance(x, (ast.FunctionDef, ast.AsyncFunctionDef)) and x is not f):
+                    hidden |= {id(y) for y in ast.walk(x)} - {id(x)}
+            occ = [x for x in ast.walk(f) if isinstance(x, ast.expr) and id(x) not in hidden and not isinstance(getattr(x, 'ctx', None), (ast.Store, ast.Del))
+                   and ast.unparse(x) == vtext]
+            # (an occurrence inside another occurrence cannot happen: equal texts, equal sizes)
+            if len(occ) != nreads or not occ:
+                continue
+            # the whole right-hand side of `other = E` is a renamed temporary, not a missing one
+            if any(isinstance(a_, ast.Assign) and len(a_.targets) == 1 and isinstance(a_.targets[0], ast.Name) and any(a_.value is o for o in occ)
+                   for a_ in ast.walk(f)):
+                continue
+            if nreads > 1:
+                if not _pure(occ[0]):
+                    continue
+                reads = {y.id for y in ast.walk(occ[0]) if isinstance(y, ast.Name)}
+                first, last = min(pos(o) for o in occ), max(pos(o) for o in occ)
+                if any(isinstance(y, ast.Name) and isinstance(y.ctx, (ast.Store, ast.Del)) and y.id in reads and first <= pos(y) <= last for y in ast.walk(f)):
+                    continue
+            # the deepest block that holds all occurrences, and the first statement of it that holds one
+            best = None
+            for holder in ast.walk(f):
+                for fld in ('body', 'orelse', 'finalbody'):
+                    blk = getattr(holder, fld, None)
+                    if not isinstance(blk, list) or not blk or not isinstance(blk[0], ast.stmt):
+                        continue
+                    idx = []
+                    for o in occ:
+                        hit = [i for i, st in enumerate(blk) if any(o is y for y in ast.walk(st))]
+                        if not hit:
+                            idx = None
+                            break
+                        idx.append(hit[0])
+                    if idx is not None:
+                        size = sum(1 for st in blk for _y in ast.walk(st))
+                        if best is None or size < best[0]:
+                            best = (size, blk, min(idx))
+            if best is None:
+                continue
+            _, blk, i0 = best
+            st0 = blk[i0]
+            # (an occurrence in the test of a loop is evaluated again on every round: not the same as one binding in front)
+            if any(isinstance(lp, (ast.While,)) and any(o is y for o in occ for y in ast.walk(lp.test)) for lp in ast.walk(f)):
+                continue
+            import copy as _copy
+            value = _copy.deepcopy(occ[0])
+            ids = {id(o) for o in occ}
+
+            class _S(ast.NodeTransformer):
+                def visit(self, node):
+                    if id(node) in ids:
+                        return ast.copy_location(ast.Name(id=nm, ctx=ast.Load()), node)
+                    return super().visit(node)
+            for j in range(i0, len(blk)):
+                blk[j] = _S().visit(blk[j])
+            new = ast.copy_location(ast.Assign(targets=[ast.Name(id=nm, ctx=ast.Store())], value=value), st0)
+            blk.insert(i0, new)
+            done += 1
+            changed = True
+            break
+        if not changed:
+            break
+    if done:
+        ast.fix_missing_locations(f)
+        _reposition(f)
     return done
 
 
@@ -1072,6 +1190,163 @@ def inline_new_helpers(tree, known):
     return notes
 
 
+def _literal_const(v):
+    """a small literal made of constants and dotted names only (what "move the constant to module level" produces)"""
+    if isinstance(v, ast.Constant):
+        return True
+    if isinstance(v, (ast.Name, ast.Attribute)):
+        return isinstance(v, ast.Name) or _literal_const(v.value)
+    if isinstance(v, (ast.Tuple, ast.List, ast.Set)):
+        return len(v.elts) <= 12 and all(_literal_const(e) for e in v.elts)
+    if isinstance(v, ast.Dict):
+        return len(v.keys) <= 16 and all(k is not None and _literal_const(k) for k in v.keys) and all(_literal_const(x) for x in v.values)
+    return False
+
+
+class _FoldText(ast.NodeTransformer):
+    """after a name was replaced by a constant: getattr(o, 'a') -> o.a; an f-string field holding a constant text joins
+    the text around it"""
+    def visit_Call(self, node):
+        self.generic_visit(node)
+        if isinstance(node.func, ast.Name) and node.func.id == 'getattr' and len(node.args) == 2 and not node.keywords \
+                and isinstance(node.args[1], ast.Constant) and isinstance(node.args[1].value, str) and node.args[1].value.isidentifier():
+            return ast.copy_location(ast.Attribute(value=node.args[0], attr=node.args[1].value, ctx=ast.Load()), node)
+        return node
+
+    def visit_JoinedStr(self, node):
+        self.generic_visit(node)
+        vals = []
+        for v in node.values:
+            if isinstance(v, ast.FormattedValue) and v.format_spec is None and v.conversion in (-1, 115) and isinstance(v.value, ast.Constant) \
+                    and isinstance(v.value.value, str):
+                v = ast.Constant(value=v.value.value)
+            if isinstance(v, ast.Constant) and vals and isinstance(vals[-1], ast.Constant):
+                vals[-1] = ast.Constant(value=vals[-1].value + v.value)
+            else:
+                vals.append(v)
+        if len(vals) == 1 and isinstance(vals[0], ast.Constant):
+            return ast.copy_location(vals[0], node)
+        node.values = vals
+        return node
+
+
+def tables_back(tree, ref_globals):
+    """Undo "table instead of code", for module-level literals the reference module does not have:
+      * `if K in T: S(T[K])` with T a new dict literal  ->  `if K == k1: S(v1) elif K == k2: S(v2) ...` (the statement's
+        own else / elif chain continues after the last entry)
+      * `for x in T: body` with T a new tuple / list of at most 4 constants (or such a literal in place), body without
+        break / continue  ->  the body once per element
+      * any other read of a new module-level literal  ->  the literal itself ("constant moved to module level")
+    Returns notes."""
+    import copy
+    notes = []
+    if ref_globals is None or os.environ.get('VERIF_NO_INLINE'):
+        return notes
+    consts = {}
+    for st in tree.body:
+        if isinstance(st, ast.Assign) and len(st.targets) == 1 and isinstance(st.targets[0], ast.Name) and st.targets[0].id not in ref_globals \
+                and _literal_const(st.value):
+            consts[st.targets[0].id] = st
+    # a name stored to anywhere else is not a constant
+    for n in ast.walk(tree):
+        if isinstance(n, ast.Name) and isinstance(n.ctx, (ast.Store, ast.Del)) and n.id in consts and consts[n.id].targets[0] is not n:
+            consts.pop(n.id)
+        elif isinstance(n, ast.Global):
+            for nm in n.names:
+                consts.pop(nm, None)
+    if not consts:
+        return notes
+
+    class _Sub(ast.NodeTransformer):
+        def __init__(self, name, value):
+            self.name, self.value = name, value
+
+        def visit_Name(self, node):
+            if node.id == self.name and isinstance(node.ctx, ast.Load):
+                return ast.copy_location(copy.deepcopy(self.value), node)
+            return node
+
+    class _SubTable(ast.NodeTransformer):
+        def __init__(self, table, key_text, value):
+            self.table, self.key_text, self.value = table, key_text, value
+
+        def visit_Subscript(self, node):
+            self.generic_visit(node)
+            if isinstance(node.value, ast.Name) and node.value.id == self.table and isinstance(node.ctx, ast.Load) and ast.unparse(node.slice) == self.key_text:
+                return ast.copy_location(copy.deepcopy(self.value), node)
+            return node
+    n_disp = n_loop = n_const = 0
+    for qual, f in top_functions(tree):
+        changed = True
+        while changed:
+            changed = False
+            for holder in ast.walk(f):
+                for fld in ('body', 'orelse', 'finalbody'):
+                    blk = getattr(holder, fld, None)
+                    if not isinstance(blk, list) or not blk or not isinstance(blk[0], ast.stmt):
+                        continue
+                    for i, st in enumerate(blk):
+                        if isinstance(st, ast.If) and isinstance(st.test, ast.Compare) and len(st.test.ops) == 1 and isinstance(st.test.ops[0], ast.In) \
+                                and isinstance(st.test.comparators[0], ast.Name) and st.test.comparators[0].id in consts \
+                                and isinstance(consts[st.test.comparators[0].id].value, ast.Dict) and isinstance(st.test.left, (ast.Name, ast.Attribute)):
+                            tname = st.test.comparators[0].id
+                            d = consts[tname].value
+                            ktext = ast.unparse(st.test.left)
+                            first = prev = None
+                            for k, v in zip(d.keys, d.values):
+                                body = [_SubTable(tname, ktext, v).visit(copy.deepcopy(x)) for x in st.body]
+                                arm = ast.copy_location(ast.If(test=ast.Compare(left=copy.deepcopy(st.test.left), ops=[ast.Eq()], comparators=[copy.deepcopy(k)]),
+                                                               body=body, orelse=[]), st)
+                                if first is None:
+                                    first = arm
+                                else:
+                                    prev.orelse = [arm]
+                                prev = arm
+                            if first is not None:
+                                prev.orelse = st.orelse
+                                blk[i] = first
+                                n_disp += 1
+                                changed = True
+                                break
+                        if isinstance(st, ast.For) and not st.orelse and isinstance(st.target, ast.Name):
+                            it = st.iter
+                            if isinstance(it, ast.Name) and it.id in consts:
+                                it = consts[it.id].value
+                            if isinstance(it, (ast.Tuple, ast.List)) and 1 <= len(it.elts) <= 4 and all(isinstance(e, ast.Constant) for e in it.elts) \
+                                    and (it is not st.iter) \
+                                    and not any(isinstance(y, (ast.Break, ast.Continue)) for x in st.body for y in ast.walk(x)) \
+                                    and not any(isinstance(y, ast.Name) and y.id == st.target.id and isinstance(y.ctx, ast.Store) for x in st.body for y in ast.walk(x)):
+                                new = []
+                                for e in it.elts:
+                                    for x in st.body:
+                                        x2 = _Sub(st.target.id, e).visit(copy.deepcopy(x))
+                                        new.append(_FoldText().visit(x2))
+                                blk[i:i + 1] = new
+                                n_loop += 1
+                                changed = True
+                                break
+                    if changed:
+                        break
+                if changed:
+                    break
+        # what is left of the new constants: read in place
+        for name, cst in consts.items():
+            if isinstance(cst.value, ast.Dict):
+                continue
+            before = sum(1 for y in ast.walk(f) if isinstance(y, ast.Name) and y.id == name and isinstance(y.ctx, ast.Load))
+            if before and not any(isinstance(y, ast.Name) and y.id == name and isinstance(y.ctx, ast.Store) for y in ast.walk(f)) \
+                    and name not in {a.arg for n in ast.walk(f) if isinstance(n, ast.arguments) for a in n.posonlyargs + n.args + n.kwonlyargs}:
+                _Sub(name, cst.value).visit(f)
+                n_const += before
+    if n_disp or n_loop or n_const:
+        ast.fix_missing_locations(tree)
+        for qual, f in top_functions(tree):
+            _reposition(f)
+        notes.append('%d table dispatch(es) written out as if-chains, %d loop(s) over a constant tuple unrolled, %d read(s) of new module-level '
+                     'literals replaced by the literal' % (n_disp, n_loop, n_const))
+    return notes
+
+
 def canonicalise(module_name, tree):
     """rename locals back to the reference names where only names changed, then substitute back temporaries that the
     reference tree does not have; returns list of notes"""
@@ -1083,6 +1358,8 @@ def canonicalise(module_name, tree):
         notes += ['%s: %s' % (module_name, x) for x in _splice.splice(
             tree, {q for q in r if '.' not in q}, {q for q in r if '.' in q},
             {q: v.get('defs', []) for q, v in sh.items()}, top_functions)]
+    if r:
+        notes += ['%s: %s' % (module_name, x) for x in tables_back(tree, (shapes().get(module_name, {}).get('__module__') or {}).get('globals'))]
     mg = module_globals_of(tree)
     for qual, f in top_functions(tree):
         want = r.get(qual)
@@ -1099,42 +1376,66 @@ def canonicalise(module_name, tree):
             k0 += kk
             if not kk:
                 break
-        ref_all0 = {nm for nm, _ in want} | set((shapes().get(module_name, {}).get(qual) or {}).get('stores', {}))
         sh_ = shapes().get(module_name, {}).get(qual) or {}
-        if len(binding_sites(f, mg)) > len(want) or sum(1 for x in ast.walk(f) if isinstance(x, _COMPS)) < sh_.get('ncomp', 0):
-            kl = loops_to_comprehensions(f, ref_all0, sh_.get('ncomp'))
-            if kl:
-                inline_new_temps(f, ref_all0)
-                notes.append('%s.%s: %d accumulating loop(s) turned back into the reference\'s comprehension' % (module_name, qual, kl))
-        renamed = _rename_back(f, want, mg, (shapes().get(module_name, {}).get(qual) or {}).get('stores'))
-        if renamed:
-            notes.append('%s.%s: %d local(s) mapped back to reference names' % (module_name, qual, renamed))
         # (every name the reference function stores to, module-level names it re-binds included)
-        ref_all = {nm for nm, _ in want} | set((shapes().get(module_name, {}).get(qual) or {}).get('stores', {}))
-        if not renamed and len(binding_sites(f, mg)) > len(want):
-            # (a rename together with new temporaries: find out which temporaries are the new ones, then rename)
-            sub = _choose_temps(f, want, mg, (shapes().get(module_name, {}).get(qual) or {}).get('skel'))
-            if sub:
-                k = inline_new_temps(f, ref_all, only=sub)
-                notes.append('%s.%s: %d new single-use temporar%s inlined' % (module_name, qual, k, 'y' if k == 1 else 'ies'))
-                renamed = _rename_back(f, want, mg, (shapes().get(module_name, {}).get(qual) or {}).get('stores'))
-                if renamed:
-                    notes.append('%s.%s: %d local(s) mapped back to reference names' % (module_name, qual, renamed))
-        k2 = inline_shared_temps(f, ref_all) if len(binding_sites(f, mg)) > len(want) else 0
-        if k2:
-            notes.append('%s.%s: %d new shared temporar%s (pure expression read several times) substituted back' % (module_name, qual, k2, 'y' if k2 == 1 else 'ies'))
-        k = inline_new_temps(f, ref_all)
-        if k:
-            notes.append('%s.%s: %d new single-use temporar%s inlined' % (module_name, qual, k, 'y' if k == 1 else 'ies'))
-            if not renamed:     # (a rename together with a new temporary: the names line up only now)
-                renamed = _rename_back(f, want, mg, (shapes().get(module_name, {}).get(qual) or {}).get('stores'))
-                if renamed:
-                    notes.append('%s.%s: %d local(s) mapped back to reference names' % (module_name, qual, renamed))
+        ref_all = {nm for nm, _ in want} | set(sh_.get('stores', {}))
+        tot = {'temps': 0, 'loops': 0, 'renamed': 0, 'single': 0, 'shared': 0}
+        renamed = 0
+        for _round in range(3):
+            progress = 0
+            names_cur = {nm for nm, _ in binding_sites(f, mg)}
+            if len(names_cur) < len(want) or any(t[0] not in names_cur for t in sh_.get('temps', [])):
+                kt = reintroduce_ref_temps(f, sh_.get('temps'))
+                tot['temps'] += kt
+                progress += kt
+            if len(binding_sites(f, mg)) > len(want) or sum(1 for x in ast.walk(f) if isinstance(x, _COMPS)) < sh_.get('ncomp', 0):
+                kl = loops_to_comprehensions(f, ref_all, sh_.get('ncomp'))
+                if kl:
+                    inline_new_temps(f, ref_all)
+                tot['loops'] += kl
+                progress += kl
+            if not renamed:
+                renamed = _rename_back(f, want, mg, sh_.get('stores'), sh_.get('temps'))
+                tot['renamed'] += renamed
+                progress += renamed
+            if not renamed and len(binding_sites(f, mg)) > len(want):
+                # (a rename together with new temporaries: find out which temporaries are the new ones, then rename)
+                sub = _choose_temps(f, want, mg, sh_.get('skel'))
+                if sub:
+                    k = inline_new_temps(f, ref_all, only=sub)
+                    tot['single'] += k
+                    progress += k
+                    renamed = _rename_back(f, want, mg, sh_.get('stores'), sh_.get('temps'))
+                    tot['renamed'] += renamed
+            if any(nm not in ref_all for nm, _ in binding_sites(f, mg)):
+                k2 = inline_shared_temps(f, ref_all)
+                tot['shared'] += k2
+                progress += k2
+                k = inline_new_temps(f, ref_all)
+                tot['single'] += k
+                progress += k
+            if not progress:
+                break
+        for key, text in (('temps', 'temporar(ies) of the reference bound again'), ('loops', "accumulating loop(s) turned back into the reference's comprehension"),
+                          ('renamed', 'local(s) mapped back to reference names'), ('single', 'new single-use temporar(ies) inlined'),
+                          ('shared', 'new shared temporar(ies) (pure expression read several times) substituted back')):
+            if tot[key]:
+                notes.append('%s.%s: %d %s' % (module_name, qual, tot[key], text))
         k = k0 + orient_back(f, shapes().get(module_name, {}).get(qual))
         if k:
             _reposition(f)
             notes.append('%s.%s: %d comparison(s) / if-else(s) turned back to the reference orientation' % (module_name, qual, k))
     return notes
+
+
+def _name_shape(e):
+    """the expression with all names blanked (so that a definition compares equal when only other renamed locals differ)"""
+    import copy as _copy
+    e = _copy.deepcopy(e)
+    for n in ast.walk(e):
+        if isinstance(n, ast.Name):
+            n.id = '_'
+    return ast.unparse(e)
 
 
 def _merge_ok(f, x, y):
@@ -1189,7 +1490,7 @@ def _split_back(f, want, mg, ref_stores=None):
     return 0
 
 
-def _rename_back(f, want, mg, ref_stores=None):
+def _rename_back(f, want, mg, ref_stores=None, ref_temps_=None):
     if not want:
         return 0
     cur = binding_sites(f, mg)
@@ -1232,6 +1533,22 @@ def _rename_back(f, want, mg, ref_stores=None):
     used = scope_names(f)
     if any(b in used and b not in mapping for b in mapping.values()):
         return 0
+    # a renamed single-assignment temporary still holds what the reference's temporary holds: its defining expression,
+    # read with the new names, is the reference's (else the "rename" pairs up two different things that merely sit at
+    # the same place in the order of bindings)
+    if ref_temps_:
+        import copy as _copy
+        rt = {t[0]: t[1] for t in ref_temps_}
+        cur_defs = {}
+        for st in ast.walk(f):
+            if isinstance(st, ast.Assign) and len(st.targets) == 1 and isinstance(st.targets[0], ast.Name):
+                cur_defs.setdefault(st.targets[0].id, []).append(st.value)
+        for a_, b_ in mapping.items():
+            if b_ in rt and len(cur_defs.get(a_, [])) == 1:
+                v = _copy.deepcopy(cur_defs[a_][0])
+                rename_scoped(v, mapping, {})
+                if ast.unparse(v) != rt[b_] and _name_shape(v) != _name_shape(ast.parse(rt[b_], mode='eval').body):
+                    return 0
     # inside one comprehension the new names of its variables must be distinct and must not capture a name it reads
     for g in clauses:
         cm = cmaps.get(id(g))
